@@ -815,7 +815,7 @@ def run_stoch(case):
             viol.append({"what": "%s: one run raised, the other did not" % name, "signature": sig(what, ":raise"),
                          "detail": "%r vs %r" % (got.err, want.err)})
             return False
-        if got.err is None and not same(got.out, want.snap):
+        if got.err is None and not same(got.snap, want.snap):
             viol.append({"what": "%s: outputs differ after the same np.random.seed" % name, "signature": sig(what),
                          "detail": "seed %s, x0 handed over as %s, t0 as %s: %s  vs  %s" % (seed, sim.get("x0_form"), sim.get("t0_form"), brief(got.out), brief(want.snap))})
             return False
@@ -1073,7 +1073,7 @@ def _run_param(case):
         if (got.err is None) != (want.err is None):
             viol.append({"what": "%s: one run raised, the other did not" % name, "signature": sig(what + ":raise", entry), "detail": "%r vs %r" % (got.err, want.err)})
             return False
-        if got.err is None and not same(got.out, want.snap):
+        if got.err is None and not same(got.snap, want.snap):
             viol.append({"what": "%s: outputs differ after the same np.random.seed" % name, "signature": sig(what, entry),
                          "detail": "seed %s (instances used before for: %s): Y %s vs %s ; Y_all[0] %s vs %s"
                                    % (seed, prep, brief(got.out[0]), brief(want.snap[0]), brief(got.out[1][0]), brief(want.snap[1][0]))})
@@ -1526,7 +1526,7 @@ def run_hist(case):
             viol.append({"what": "%s: one call raised, the other did not" % name, "signature": sig(what + ":raise", hk), "detail": "%r vs %r" % (got.err, want.err)})
             return False
         eq = same_values if values_only else same
-        if got.err is None and not eq(got.out, want.snap):
+        if got.err is None and not eq(got.snap, want.snap):
             viol.append({"what": "%s: outputs differ after the same np.random.seed" % name, "signature": sig(what, hk),
                          "detail": "seed %s, %s: %s  vs  %s" % (seed, got.label, brief(got.out), brief(want.snap))})
             return False
